@@ -86,9 +86,9 @@ Proof.
   cbn [app] in H2.
   eapply perm_trans; [apply Permutation_app_tail, H2|].
   eapply perm_trans; [apply concat_zip|].
-  assert (forall i, snd (run (init_state max_stack) [] (proj i ms)) ++ remaining (t_last (f i)) (t_live (f i))
+  assert (forall i, snd (run (init_state max_stack) [] (proj i ms)) ++ remaining false (t_last (f i)) (t_live (f i))
                     = task_rows max_stack (proj i ms)) as E.
-  { intro i. unfold task_rows. rewrite H1. destruct (run (init_state max_stack) [] (proj i ms)). reflexivity. }
+  { intro i. unfold task_rows, task_rows_gen. fold (init_state max_stack). rewrite H1. destruct (run (init_state max_stack) [] (proj i ms)). reflexivity. }
   rewrite (map_ext _ _ E). apply Permutation_refl.
 Qed.
 
@@ -97,7 +97,7 @@ Theorem merge_irrelevant max_stack nms n ms : (forall p, In p ms -> (fst p < n)%
   table_of_rows nms (merged_rows max_stack n ms)
   = report (mkcase max_stack nms (map (fun i => proj i ms) (seq 0 n))).
 Proof.
-  intro Hn. unfold report, all_rows. cbn [c_names c_max c_tasks]. rewrite map_map.
+  intro Hn. unfold report, report_gen, all_rows_gen. fold task_rows. cbn [c_names c_max c_tasks]. rewrite map_map.
   apply table_perm, merged_rows_perm, Hn.
 Qed.
 
